@@ -34,11 +34,12 @@ META = dict(
                "reported as VIOLATION until the diff is applied: nothing is written at engine start; a long-running "
                "method command keeps writing its value every tick while paused; an error pause leaves the outputs as "
                "they are. Not covered: the one tick between the two halves of Restart (no run active, last written "
-               "values stay - not among the situations C08 lists); injected errors while no run is active; output "
-               "tags under Simulate; UOD commands other than 'write v to r for n iterations' (overlap lists, "
+               "values stay - not among the situations C08 lists); injected errors while no run is active; UOD commands other than 'write v to r for n iterations' (overlap lists, "
                "init/finalize effects, failing exec functions are model M2); a user UOD command requested while no "
                "run is active that is still executing after the next Start (tracking raises; flagged `bad-op scope`, "
-               "not generated). Trusted: Lean kernel, harness, model (see C06).",
+               "not generated). Recorded finding outside the model (findings.d/C08.json, reproduced on the real engine "
+               "every run, not repaired): an output tag under 'Simulate' keeps its simulated value on the hardware "
+               "while paused. Trusted: Lean kernel, harness, model (see C06).",
     technique="Lean 4 proof (refinement of the extended command loop to the guarded action system of M1 + write-log "
               "invariants; decide +kernel witnesses) + differential correspondence with a recording hardware layer "
               "+ independent write-log oracle",
